@@ -328,6 +328,8 @@ def _print_items(p):
         if p.is_op(";", ","):
             items.append(("sep", p.next().text))
         else:
+            if items and items[-1][0] == "item":
+                raise B09SyntaxError("PRINT items must be separated by ';' or ',' (found %r)" % p.peek().text)
             items.append(("item", parse_expr(p)))
     return items
 
